@@ -8,7 +8,7 @@ EXPLANATION = ("gix_features::parallel::in_parallel_with_slice hands each worker
                "value with the captured slice length and yields old+1, that the pointer is input.as_mut_ptr() of the exclusively borrowed slice, and that an Err from "
                "the consumer sets stop_everything before returning. All worker threads of the module are spawned with spawn_scoped inside thread::scope; the two unscoped "
                "thread::spawn sites are the listed ones (EagerIter's channel-fed producer; Stepwise, which joins in Drop). Exactly-once delivery of the channel-based "
-               "variants under all schedules is not decided. <Stepwise as Drop>::drop drops the receiver it takes out of self.receive_result (mem::drop or MIR drop) on every path before it joins a thread.")
+               "variants under all schedules is not decided. <Stepwise as Drop>::drop drops the receiver it takes out of self.receive_result (mem::drop or MIR drop) on every path before it joins a thread. Worker results are handed to the bounded channel with blocking sends only (no try_send/send_timeout in gix_features::parallel).")
 UNSCOPED_OK = {
     "gix_features::parallel::eager_iter::EagerIter::<I>::new": "producer owns its iterator and ends when the bounded channel's receiver is dropped",
     "gix_features::parallel::reduce::stepped::Stepwise::<Reduce>::new": "handles are stored and joined in Drop for Stepwise",
@@ -16,6 +16,7 @@ UNSCOPED_OK = {
 
 
 def run(db, chk):
+    results_are_delivered_rule(db, chk)
     stepwise_drop_rule(db, chk)
     root = db.one(r"^gix_features::parallel::in_parallel::in_parallel_with_slice$")
     clos = [g for g in db.closures_of(root) if g.kind == "closure"]
@@ -104,3 +105,21 @@ def stepwise_drop_rule(db, chk):
     chk.ob("receiver-dropped-before-join", "<Stepwise as Drop>::drop", bool(dropsites) and not early,
            "a thread is joined while the receiver taken out of self.receive_result is still alive: workers blocked in send() never finish and drop() waits forever",
            (early[0] if early else joins[0]).where(), key="receiver-dropped-before-join|Stepwise")
+
+
+def results_are_delivered_rule(db, chk):
+    """`the reducer sees every result exactly once`: worker results (per item and the per-thread finalize output) travel through a BOUNDED channel
+    to the reducer, so they are handed over with the blocking `send` - a non-blocking or timed variant (try_send, send_timeout, send_deadline)
+    drops a result whenever the reducer is behind, and `.ok()` hides it.  Zero-expected over gix_features::parallel (in_parallel*, reduce,
+    eager/in-order iterators), with a floor on the blocking sends."""
+    fns = [f for f in db.by_crate["gix_features"] if f.kind != "promoted" and "::parallel::" in f.name]
+    chk.floor("functions of gix_features::parallel", len(fns), 20)
+    sends = [(f, c) for f in fns for c in f.calls() if c.is_(r"Sender<T>>::send$|Sender::<T>::send$|SyncSender::<T>::send$|::send$")]
+    lossy = [(f, c) for f in fns for c in f.calls() if c.is_(r"::try_send$|::send_timeout$|::send_deadline$|::try_send_\w+$")]
+    chk.floor("blocking sends of results in gix_features::parallel", len(sends), 3)
+    for f, c in lossy:
+        chk.ob("results-sent-blocking", "%s %s@%d" % (f.name.split("gix_features::parallel::")[-1][:60], c.name.split("::")[-1], c.line), False,
+               "a result is handed to the bounded channel without waiting for room: when the reducer is behind it is dropped and the call still returns Ok",
+               c.where(), key="lossy-send|%s" % c.name.split("::")[-1])
+    if not lossy:
+        chk.ob("results-sent-blocking", "gix_features::parallel (%d blocking sends, no try_send/send_timeout)" % len(sends), True)
